@@ -29,6 +29,10 @@
 #include <ompl/multilevel/planners/qrrt/QRRTStar.h>
 #include <ompl/multilevel/planners/qmp/QMP.h>
 #include <ompl/multilevel/planners/qmp/QMPStar.h>
+#include <ompl/geometric/planners/rrt/VFRRT.h>
+#include <ompl/geometric/planners/experience/LightningRetrieveRepair.h>
+#include <ompl/tools/lightning/LightningDB.h>
+#include <ompl/base/DiscreteMotionValidator.h>
 #include <ompl/util/RandomNumbers.h>
 #include <csignal>
 #include <map>
@@ -39,6 +43,71 @@
 namespace ob = ompl::base;
 namespace og = ompl::geometric;
 namespace om = ompl::multilevel;
+
+// ------------------------------------------------------------------------------------------------ one-way region
+// A direction-SENSITIVE motion validator on a symmetric space: the discrete validator, and in addition a motion that
+// moves in -x direction and touches the box [lo, hi] (first two reals) is invalid.  checkMotion(a, b) != checkMotion(b, a):
+// a planner must validate every motion in the direction its reported path travels it.
+class OneWayValidator : public ob::MotionValidator
+{
+public:
+    OneWayValidator(const ob::SpaceInformationPtr &si, std::vector<double> lo, std::vector<double> hi)
+      : ob::MotionValidator(si), inner_(si), lo_(std::move(lo)), hi_(std::move(hi))
+    {
+    }
+    bool blocked(const ob::State *s1, const ob::State *s2) const
+    {
+        std::vector<double> a, b;
+        si_->getStateSpace()->copyToReals(a, s1);
+        si_->getStateSpace()->copyToReals(b, s2);
+        if (!(b[0] < a[0]))
+            return false;
+        double t0 = 0.0, t1 = 1.0;  // slab test of the segment a -> b against the closed box
+        for (unsigned d = 0; d < 2; ++d)
+        {
+            const double da = b[d] - a[d];
+            if (da == 0.0)
+            {
+                if (a[d] < lo_[d] || a[d] > hi_[d])
+                    return false;
+                continue;
+            }
+            double u0 = (lo_[d] - a[d]) / da, u1 = (hi_[d] - a[d]) / da;
+            if (u0 > u1)
+                std::swap(u0, u1);
+            t0 = std::max(t0, u0);
+            t1 = std::min(t1, u1);
+            if (t0 > t1)
+                return false;
+        }
+        return true;
+    }
+    bool checkMotion(const ob::State *s1, const ob::State *s2) const override
+    {
+        if (blocked(s1, s2))
+        {
+            invalid_++;
+            return false;
+        }
+        return inner_.checkMotion(s1, s2);
+    }
+    bool checkMotion(const ob::State *s1, const ob::State *s2, std::pair<ob::State *, double> &lastValid) const override
+    {
+        if (blocked(s1, s2))
+        {
+            lastValid.second = 0.0;
+            if (lastValid.first != nullptr)
+                si_->copyState(lastValid.first, s1);
+            invalid_++;
+            return false;
+        }
+        return inner_.checkMotion(s1, s2, lastValid);
+    }
+
+private:
+    ob::DiscreteMotionValidator inner_;
+    std::vector<double> lo_, hi_;
+};
 
 // ------------------------------------------------------------------------------------------------ recording
 struct DrawLog
@@ -397,6 +466,7 @@ struct Config
     unsigned long seed = 0, budget = 1000, pollcap = 100000;
     std::string mode = "run";
     bool trace = false;
+    std::vector<double> oneway;  // lo0 lo1 hi0 hi1 of the one-way box (empty: none)
     bool costThrInf = true;  // LazyPRM lock-step: cost threshold of the objective (inf = LazyPRM's own default)
 };
 
@@ -416,8 +486,34 @@ static std::string commaBits(const std::vector<double> &r)
 }
 
 static ob::PlannerPtr makePlanner(const std::string &n, const ob::SpaceInformationPtr &si,
-                                  std::vector<ob::SpaceInformationPtr> &sis)
+                                  std::vector<ob::SpaceInformationPtr> &sis, const ob::ProblemDefinitionPtr &pdef)
 {
+    if (n == "Lightning")
+    {
+        // experience database: the straight line start -> goal and two detours through random via points (none of them
+        // validated: retrieve-repair has to repair whatever is invalid)
+        auto db = std::make_shared<ompl::tools::LightningDB>(si->getStateSpace());
+        const ob::State *s0 = pdef->getStartState(0);
+        const ob::State *g = pdef->getGoal()->as<ob::GoalState>()->getState();
+        auto sampler = si->allocStateSampler();
+        for (int k = 0; k < 3; ++k)
+        {
+            og::PathGeometric path(si);
+            path.append(s0);
+            if (k > 0)
+            {
+                ob::State *via = si->allocState();
+                sampler->sampleUniform(via);
+                path.append(via);
+                si->freeState(via);
+            }
+            path.append(g);
+            path.interpolate(8);
+            double t = 0;
+            db->addPath(path, t);
+        }
+        return std::make_shared<og::LightningRetrieveRepair>(si, db);
+    }
     if (n == "pRRT")
     {
         auto p = std::make_shared<og::pRRT>(si);
@@ -449,6 +545,17 @@ static ob::PlannerPtr makePlanner(const std::string &n, const ob::SpaceInformati
         p->setSelectionRadius(0.1 * si->getMaximumExtent());
         p->setPruningRadius(0.04 * si->getMaximumExtent());
         return p;
+    }
+    if (n == "VFRRT")
+    {
+        // a constant vector field pointing along +x
+        const unsigned dim = si->getStateDimension();
+        og::VFRRT::VectorField vf = [dim](const ob::State *) {
+            Eigen::VectorXd v = Eigen::VectorXd::Zero(dim);
+            v[0] = 1.0;
+            return v;
+        };
+        return std::make_shared<og::VFRRT>(si, vf, 0.7, 1.0, 100);
     }
     if (n == "QRRT")
         return std::make_shared<om::QRRT>(sis);
@@ -504,6 +611,9 @@ static int runOnce(const Config &c)
     std::shared_ptr<vp::RecordingValidityChecker> vc = std::make_shared<HookedChecker>(si, env, true);
     si->setStateValidityChecker(vc);
     si->setStateValidityCheckingResolution(c.res);
+    if (c.oneway.size() == 4)
+        si->setMotionValidator(std::make_shared<OneWayValidator>(
+            si, std::vector<double>{c.oneway[0], c.oneway[1]}, std::vector<double>{c.oneway[2], c.oneway[3]}));
     si->setup();
 
     // multilevel: R^3 problem over its R^2 projection (same boxes restricted to the first two coordinates)
@@ -512,17 +622,19 @@ static int runOnce(const Config &c)
     if (isMultilevel(c.planner))
     {
         auto *rv = dynamic_cast<ob::RealVectorStateSpace *>(space.get());
-        if (!rv || rv->getDimension() != 3 || env.pdim > 2)
+        auto *se2 = dynamic_cast<ob::SE2StateSpace *>(space.get());
+        if ((!(rv && rv->getDimension() == 3) && !se2) || env.pdim > 2)
         {
             std::cout << "not-applicable\n";
             return 0;
         }
+        const ob::RealVectorBounds &tb = se2 ? se2->getBounds() : rv->getBounds();
         auto base = std::make_shared<ob::RealVectorStateSpace>(2);
         ob::RealVectorBounds b(2);
         for (unsigned d = 0; d < 2; ++d)
         {
-            b.low[d] = rv->getBounds().low[d];
-            b.high[d] = rv->getBounds().high[d];
+            b.low[d] = tb.low[d];
+            b.high[d] = tb.high[d];
         }
         base->setBounds(b);
         auto siB = std::make_shared<ob::SpaceInformation>(base);
@@ -604,7 +716,7 @@ static int runOnce(const Config &c)
             throw vp::ParseError("lockstep is RRT / RRTConnect / LazyPRM only");
     }
     else
-        planner = makePlanner(c.planner, si, sis);
+        planner = makePlanner(c.planner, si, sis, pdef);
 
     auto setParam = [&](const char *name, const std::string &v) {
         if (planner->params().hasParam(name))
@@ -995,6 +1107,17 @@ int main()
             c.mode = rest[0];
         else if (op == "trace" && rest.size() == 1 && (rest[0] == "0" || rest[0] == "1"))
             c.trace = rest[0] == "1";
+        else if (op == "oneway" && rest.size() == 4)
+        {
+            for (auto &x : rest)
+            {
+                auto v = vp::parseBits(x);
+                if (!v)
+                    ok = false;
+                else
+                    c.oneway.push_back(*v);
+            }
+        }
         else if (op == "costthr" && rest.size() == 1 && (rest[0] == "inf" || rest[0] == "zero"))
             c.costThrInf = rest[0] == "inf";
         else if (op == "watchdog" && rest.size() == 1 && vp::parseNat(rest[0]))
